@@ -10,6 +10,12 @@ import (
 // allocation every store into that allocation whose field path overlaps the one loaded (through element and field addresses and slices of it) together with the
 // index operands of those addresses. Control dependence is not followed. Call results are followed into their arguments.
 func dataSlice(fn *ssa.Function, v ssa.Value) map[ssa.Value]bool {
+	return dataSliceStop(fn, v, nil)
+}
+
+// dataSliceStop is dataSlice that does not look behind stop: what remains reachable depends on v's inputs by a route that
+// bypasses stop.
+func dataSliceStop(fn *ssa.Function, v ssa.Value, stop ssa.Value) map[ssa.Value]bool {
 	seen := map[ssa.Value]bool{}
 	// stores per root allocation
 	rootOf := func(a ssa.Value) (ssa.Value, []ssa.Value, []int) {
@@ -69,6 +75,9 @@ func dataSlice(fn *ssa.Function, v ssa.Value) map[ssa.Value]bool {
 			return
 		}
 		seen[v] = true
+		if stop != nil && v == stop {
+			return
+		}
 		if u, ok := v.(*ssa.UnOp); ok && u.Op.String() == "*" {
 			root, idx, path := rootOf(u.X)
 			for _, i := range idx {
